@@ -393,7 +393,7 @@ fn gen_list_plain(rng: &mut Rng) -> G {
 pub fn gen_scoped(rng: &mut Rng) -> G {
     let wrap = |rng: &mut Rng, q: G| -> G {
         let b = Box::new(q);
-        match rng.below(10) {
+        match rng.below(11) {
             0 => G::Maybe(b),
             1 => G::Unrecoverable(b),
             2 => G::Raw(b),
@@ -403,6 +403,9 @@ pub fn gen_scoped(rng: &mut Rng) -> G {
             6 => G::Unfiltered(b),
             7 => G::Stabilize(b),
             8 => G::CtxPushed(70 + rng.below(3) as u32, b),
+            // a stabilising parser whose failure is absorbed by an alternative (with a sink, unlike
+            // under `maybe`): when the lexer is still recovering it retries before giving up
+            9 => G::Either(Box::new(G::Stabilize(b)), Box::new(G::Maybe(Box::new(G::One(1))))),
             _ => G::Maybe(b),
         }
     };
@@ -426,6 +429,11 @@ pub fn gen_scoped(rng: &mut Rng) -> G {
     let mut g = G::Both(Box::new(G::Probe(9)), Box::new(p));
     for _ in 0..n {
         g = G::Both(Box::new(q(rng)), Box::new(g));
+    }
+    // one time in three the wrapped siblings run on a lexer that an earlier recovery left recovering
+    if rng.chance(1, 3) {
+        let pre = G::Recover(1, Box::new(G::Seq(vec![2, 2])), Rec::BeforeAny(vec![0, 3]));
+        g = G::Both(Box::new(pre), Box::new(g));
     }
     G::Both(Box::new(G::Probe(0)), Box::new(g))
 }
@@ -701,6 +709,33 @@ pub fn family(out: &mut Out, family: &str, tier: &Tier, rng: &mut Rng) {
                 mk(token_text(rng, 8, &['(', ')', '[', ']']), rng, g)
             }
             "bracket" => { let g = gen_bracket(rng, 1); mk(token_text(rng, 9, &['(', ')', '[', ']', '{', '}']), rng, g) }
+            "list" if i % 16 == 15 => {
+                // the same bracket parser object applied to several items, some of them with a
+                // close bracket of the wrong kind inside an enclosing bracket of another kind
+                let item = G::Bracket(rng.below(4) as u8, vec![6, 8], Box::new(G::Maybe(Box::new(G::One(0)))), vec![7, 9], vec![]);
+                let nested = G::Bracket(rng.below(4) as u8, vec![6, 8], Box::new(item.clone()), vec![7, 9], vec![]);
+                let g = match rng.below(3) {
+                    0 => G::List(rng.below(4) as u8, 0, None, Box::new(nested), 4, vec![5]),
+                    1 => G::Repeat(rng.below(4) as u8, 0, None, Box::new(G::Both(Box::new(G::Maybe(Box::new(nested))), Box::new(G::One(4))))),
+                    _ => G::List(rng.below(4) as u8, 0, None, Box::new(item), 4, vec![5]),
+                };
+                let shapes = ["(a)", "[a]", "([a])", "[(a)]", "((a))", "[[a]]", "()", "([])"];
+                let n = 2 + rng.below(3);
+                let mut items: Vec<String> = (0..n).map(|_| rng.pick(&shapes).to_string()).collect();
+                for _ in 0..1 + rng.below(2) {
+                    let k = rng.below(items.len());
+                    let closes: Vec<usize> = items[k].char_indices().filter(|(_, c)| *c == ')' || *c == ']').map(|(j, _)| j).collect();
+                    if let Some(&j) = closes.get(rng.below(closes.len().max(1))) {
+                        let c = if items[k].as_bytes()[j] == b')' { "]" } else { ")" };
+                        items[k].replace_range(j..j + 1, c);
+                    }
+                }
+                let mut c = mk(items.join(","), rng, g);
+                c.text = items.join(if rng.chance(1, 2) { "," } else { ", " });
+                c.le = LineEnding::Lf; c.tab = 4;
+                c.sink = rng.chance(3, 4);
+                c
+            }
             "list" => { let g = gen_list(rng); mk(token_text(rng, 9, &[',', ',', ']', '[', ';']), rng, g) }
             "recover" => {
                 let g = gen_recover(rng);
@@ -741,6 +776,11 @@ pub fn family(out: &mut Out, family: &str, tier: &Tier, rng: &mut Rng) {
             }
             _ => return,
         };
+        let mut c = c;
+        if matches!(family, "bracket" | "list" | "errors" | "term" | "nopanic") && rng.chance(1, 3) {
+            // one case in three applies the same compiled parser object two or three times
+            c.invocations = 2 + rng.below(2);
+        }
         emit(out, family, &c);
     }
 }
